@@ -159,6 +159,7 @@ static bool set_glob_attr(const char *k, const char *v) {
         free(vp_glob.icon); vp_glob.icon = p; vp_glob.icon_len = (size_t)n; vp_glob.icon_present = 1; return true;
     }
     if (!strcmp(k, "failsize")) { if (!parse_i64(v, &i) || i < 0 || i > 1000000) return false; vp_glob.fail_size = (size_t)i; return true; }
+    if (!strcmp(k, "recycle")) { vp_glob.recycle = !strcmp(v, "on"); return !strcmp(v, "on") || !strcmp(v, "off"); }
     if (!strcmp(k, "memcmprep")) { vp_glob.memcmp_wide = !strcmp(v, "wide"); return !strcmp(v, "wide") || !strcmp(v, "byte"); }
     if (!strcmp(k, "sendok")) { vp_glob.send_len = !strcmp(v, "len"); return !strcmp(v, "len") || !strcmp(v, "zero"); }
     if (!strcmp(k, "mtuclobber")) { if (!parse_i64(v, &i) || i < 0 || i > 65535) return false; vp_glob.mtu_clobber = (size_t)i; return true; }
@@ -384,6 +385,12 @@ static void run_line(char *line) {
             g_fsm_kind[A] = k;
             g_fsm[A] = k == 0 ? init_automata_mapping() : k == 1 ? init_automata_session() : init_automata_enumeration();
             show_fsm(A); if (k == 0) show_map(A); if (k == 2) show_band(A);
+        } else if (!strcmp(tok[1], "free")) {
+            /* fsm free A: what a port does when an interface goes away - the extra state, then the automaton */
+            if (nt != 3 || !g_fsm[A]) { bad(); goto end; }
+            if (g_fsm[A]->extra) lltd_port_free(g_fsm[A]->extra);
+            lltd_port_free(g_fsm[A]); g_fsm[A] = NULL;
+            fprintf(vp_out, "ok\n");
         } else if (!strcmp(tok[1], "set")) {
             uint64_t s, l; if (nt != 5 || !g_fsm[A] || !parse_u64(tok[3], &s) || !parse_u64(tok[4], &l) || s >= g_fsm[A]->states_no) { bad(); goto end; }
             g_fsm[A]->current_state = (uint8_t)s; g_fsm[A]->last_ts = l; show_fsm(A);
